@@ -940,4 +940,457 @@ theorem queryColour_idempotent (k : Kind) (iw : List Nat) (s : Stream) (c : Nat)
         rw [lookupImage_cons]
         simp
 
+/-! ### deepening round D: `seek_timestamp_next_line` on regular info waves -/
+
+
+def usedFrom (i : Nat) : List Nat → List (Nat × Nat)
+  | [] => []
+  | c :: cs => if isUsed c then (c, i) :: usedFrom (i + 1) cs else usedFrom (i + 1) cs
+
+theorem usedIdx_eq (iw : List Nat) : usedIdx iw = usedFrom 0 iw := by
+  unfold usedIdx
+  suffices h : ∀ i, (iw.zipIdx i).filter (fun x => isUsed x.1) = usedFrom i iw from h 0
+  induction iw with
+  | nil => intro i; rfl
+  | cons c cs ih =>
+    intro i
+    simp only [List.zipIdx_cons, List.filter_cons, usedFrom]
+    by_cases h : isUsed c = true
+    · simp [h, ih]
+    · simp [h, ih]
+
+theorem usedFrom_append (i : Nat) (a b : List Nat) :
+    usedFrom i (a ++ b) = usedFrom i a ++ usedFrom (i + a.length) b := by
+  induction a generalizing i with
+  | nil => simp [usedFrom]
+  | cons c cs ih =>
+    simp only [List.cons_append, usedFrom, List.length_cons]
+    rw [ih]
+    have : i + 1 + cs.length = i + (cs.length + 1) := by omega
+    by_cases h : isUsed c = true
+    · simp [h, this]
+    · simp [h, this]
+
+theorem usedFrom_zeros (i z : Nat) : usedFrom i (List.replicate z 0) = [] := by
+  induction z generalizing i with
+  | zero => rfl
+  | succ z ih => simp [List.replicate_succ, usedFrom, isUsed, ih]
+
+/-- the used samples of one pixel that starts at sample `i` -/
+def pixelUsed (i k : Nat) : List (Nat × Nat) :=
+  (List.range (k - 1)).map (fun j => (1, i + j)) ++ [(2, i + (k - 1))]
+
+theorem usedFrom_ones (i m : Nat) :
+    usedFrom i (List.replicate m 1) = (List.range m).map (fun j => (1, i + j)) := by
+  induction m generalizing i with
+  | zero => rfl
+  | succ m ih =>
+    rw [List.replicate_succ, usedFrom, List.range_succ_eq_map]
+    simp only [isUsed, ih, List.map_cons, List.map_map]
+    simp
+    intro a _
+    omega
+
+theorem usedFrom_pixel (i k : Nat) : usedFrom i (regPixel k) = pixelUsed i k := by
+  unfold regPixel pixelUsed
+  rw [usedFrom_append, usedFrom_ones]
+  simp [usedFrom, isUsed]
+
+theorem regPixel_length (k : Nat) (hk : 1 ≤ k) : (regPixel k).length = k := by
+  unfold regPixel; simp; omega
+
+/-- start samples of the pixels of one line that starts at `s` -/
+def lineStarts (k : Nat) : Nat → Nat → List Nat
+  | _, 0 => []
+  | s, P + 1 => s :: lineStarts k (s + k) P
+
+/-- start samples of all pixels of `n` lines, the first line starting at `s` -/
+def regStarts (k d P : Nat) : Nat → Nat → List Nat
+  | _, 0 => []
+  | s, n + 1 => lineStarts k s P ++ regStarts k d P (s + P * k + d) n
+
+def usedOf (k : Nat) (starts : List Nat) : List (Nat × Nat) := (starts.map (pixelUsed · k)).flatten
+
+theorem regLine_length (k : Nat) (hk : 1 ≤ k) (P : Nat) : (regLine k P).length = P * k := by
+  induction P with
+  | zero => simp [regLine]
+  | succ P ih => simp only [regLine, List.length_append, ih, regPixel_length k hk, Nat.succ_mul]; omega
+
+theorem usedFrom_line (k : Nat) (hk : 1 ≤ k) (P s : Nat) :
+    usedFrom s (regLine k P) = usedOf k (lineStarts k s P) := by
+  induction P generalizing s with
+  | zero => rfl
+  | succ P ih =>
+    simp only [regLine, lineStarts, usedOf, List.map_cons, List.flatten_cons]
+    rw [usedFrom_append, usedFrom_pixel, regPixel_length k hk, ih]
+    rfl
+
+theorem usedOf_append (k : Nat) (a b : List Nat) : usedOf k (a ++ b) = usedOf k a ++ usedOf k b := by
+  simp [usedOf]
+
+theorem usedFrom_lines (k d P : Nat) (hk : 1 ≤ k) (n s : Nat) :
+    usedFrom s (regLines k d P n) = usedOf k (regStarts k d P s n) := by
+  induction n generalizing s with
+  | zero => rfl
+  | succ n ih =>
+    simp only [regLines, regStarts]
+    rw [usedFrom_append, usedFrom_line k hk, usedFrom_append, usedFrom_zeros, List.nil_append,
+      regLine_length k hk, List.length_replicate, ih, usedOf_append]
+
+theorem usedIdx_regWave (lead k d P n : Nat) (hk : 1 ≤ k) :
+    usedIdx (regWave lead k d P n) = usedOf k (regStarts k d P lead n) := by
+  rw [usedIdx_eq]
+  unfold regWave
+  rw [usedFrom_append, usedFrom_zeros, List.nil_append, List.length_replicate, usedFrom_lines k d P hk]
+  simp
+
+/-! afterBoundary on a concatenation of pixels -/
+
+theorem afterBoundary_ones (i m : Nat) (y : Nat × Nat) (rest : List (Nat × Nat)) :
+    afterBoundary ((List.range m).map (fun j => (1, i + j)) ++ y :: rest) = afterBoundary (y :: rest) := by
+  induction m generalizing i with
+  | zero => rfl
+  | succ m ih =>
+    rw [List.range_succ_eq_map]
+    simp only [List.map_cons, List.map_map, List.cons_append]
+    have hm : (List.map ((fun j => ((1 : Nat), i + j)) ∘ Nat.succ) (List.range m))
+        = (List.range m).map (fun j => (1, (i + 1) + j)) := by
+      apply List.map_congr_left; intro a _; simp; omega
+    rw [hm]
+    cases m with
+    | zero => simp [afterBoundary]
+    | succ m' =>
+      rw [List.range_succ_eq_map]
+      simp only [List.map_cons, List.cons_append, afterBoundary]
+      simp only [show ((1 : Nat) = 2) = False by simp, if_false]
+      have := ih (i + 1)
+      rw [List.range_succ_eq_map] at this
+      simpa using this
+
+theorem afterBoundary_pixel (i k : Nat) (y : Nat × Nat) (rest : List (Nat × Nat)) :
+    afterBoundary (pixelUsed i k ++ y :: rest) = y.2 :: afterBoundary (y :: rest) := by
+  unfold pixelUsed
+  rw [List.append_assoc, List.singleton_append, afterBoundary_ones]
+  simp [afterBoundary]
+
+theorem afterBoundary_pixel_end (i k : Nat) : afterBoundary (pixelUsed i k) = [] := by
+  unfold pixelUsed
+  have := afterBoundary_ones i (k - 1) (2, i + (k - 1)) []
+  rw [this]; rfl
+
+theorem pixelUsed_head (i k : Nat) (_hk : 1 ≤ k) : ∃ c rest, pixelUsed i k = (c, i) :: rest := by
+  unfold pixelUsed
+  cases hk1 : k - 1 with
+  | zero => exact ⟨2, [], by simp⟩
+  | succ m => exact ⟨1, _, by rw [List.range_succ_eq_map]; simp; rfl⟩
+
+theorem afterBoundary_usedOf (k : Nat) (hk : 1 ≤ k) (s : Nat) (starts : List Nat) :
+    afterBoundary (usedOf k (s :: starts)) = starts := by
+  induction starts generalizing s with
+  | nil => simp [usedOf, afterBoundary_pixel_end]
+  | cons t ts ih =>
+    have hu : usedOf k (s :: t :: ts) = pixelUsed s k ++ usedOf k (t :: ts) := by simp [usedOf]
+    obtain ⟨c, rest, hc⟩ : ∃ c rest, usedOf k (t :: ts) = (c, t) :: rest := by
+      obtain ⟨c, r, h⟩ := pixelUsed_head t k hk
+      exact ⟨c, r ++ usedOf k ts, by simp [usedOf, h]⟩
+    rw [hu, hc, afterBoundary_pixel, ← hc, ih]
+
+theorem usedOf_getLast (k : Nat) (s : Nat) (starts : List Nat) :
+    ∃ j, (usedOf k (s :: starts)).getLast? = some (2, j) := by
+  induction starts generalizing s with
+  | nil => exact ⟨s + (k - 1), by simp [usedOf, pixelUsed]⟩
+  | cons t ts ih =>
+    obtain ⟨j, hj⟩ := ih t
+    refine ⟨j, ?_⟩
+    have hu : usedOf k (s :: t :: ts) = pixelUsed s k ++ usedOf k (t :: ts) := by simp [usedOf]
+    rw [hu, List.getLast?_append, hj]
+    rfl
+
+theorem pixelStarts_regular (iw : List Nat) (k : Nat) (hk : 1 ≤ k) (s : Nat) (starts : List Nat)
+    (h : usedIdx iw = usedOf k (s :: starts)) : pixelStarts iw = starts := by
+  unfold pixelStarts
+  simp only [h]
+  obtain ⟨j, hj⟩ := usedOf_getLast k s starts
+  rw [hj, afterBoundary_usedOf k hk]
+  rfl
+
+theorem lineStarts_length (k s m : Nat) : (lineStarts k s m).length = m := by
+  induction m generalizing s with
+  | zero => rfl
+  | succ m ih => simp [lineStarts, ih]
+
+theorem diffsI_line (k a m : Nat) : diffsI (lineStarts k a (m + 1)) = List.replicate m (k : Int) := by
+  induction m generalizing a with
+  | zero => rfl
+  | succ m ih =>
+    have := ih (a + k)
+    simp only [lineStarts] at this ⊢
+    simp only [diffsI, this, List.replicate_succ]
+    congr 1
+    omega
+
+theorem diffsI_line_append (k a m b : Nat) (r : List Nat) :
+    diffsI (lineStarts k a (m + 1) ++ b :: r)
+      = List.replicate m (k : Int) ++ ((b : Int) - ((a + m * k : Nat) : Int)) :: diffsI (b :: r) := by
+  induction m generalizing a with
+  | zero => simp [lineStarts, diffsI]
+  | succ m ih =>
+    have := ih (a + k)
+    simp only [lineStarts, List.cons_append] at this ⊢
+    simp only [diffsI, this, List.replicate_succ, List.cons_append]
+    congr 2
+    · omega
+    · congr 2
+      rw [Nat.succ_mul]; omega
+
+theorem regStarts_head (k d P s n : Nat) :
+    ∃ r, regStarts k d (P + 1) s (n + 1) = s :: r := by
+  simp [regStarts, lineStarts]
+
+theorem diffsI_reg_mem (k d P : Nat) (n s : Nat) :
+    ∀ x ∈ diffsI (regStarts k d (P + 1) s n), x = (k : Int) ∨ x = (k : Int) + d := by
+  induction n generalizing s with
+  | zero => intro x hx; simp [regStarts, diffsI] at hx
+  | succ n ih =>
+    intro x hx
+    cases n with
+    | zero =>
+      simp only [regStarts, List.append_nil] at hx
+      rw [diffsI_line] at hx
+      left; exact (List.mem_replicate.mp hx).2
+    | succ n =>
+      obtain ⟨r, hr⟩ := regStarts_head k d P (s + (P + 1) * k + d) n
+      have ih' := ih (s + (P + 1) * k + d)
+      rw [regStarts, hr, diffsI_line_append] at hx
+      rw [hr] at ih'
+      rcases List.mem_append.mp hx with h | h
+      · left; exact (List.mem_replicate.mp h).2
+      · rcases List.mem_cons.mp h with h | h
+        · right; rw [h, Nat.succ_mul]; omega
+        · exact ih' x h
+
+theorem foldl_max_eq (l : List Int) (init M : Int) (hinit : init ≤ M) (hall : ∀ x ∈ l, x ≤ M)
+    (hmem : init = M ∨ M ∈ l) : l.foldl max init = M := by
+  induction l generalizing init with
+  | nil => rcases hmem with h | h; exact h; simp at h
+  | cons a l ih =>
+    simp only [List.foldl_cons]
+    have ha := hall a (by simp)
+    apply ih
+    · omega
+    · exact fun x hx => hall x (by simp [hx])
+    · rcases hmem with h | h
+      · left; omega
+      · rcases List.mem_cons.mp h with h | h
+        · left; omega
+        · right; exact h
+
+theorem foldl_min_eq (l : List Int) (init m : Int) (hinit : m ≤ init) (hall : ∀ x ∈ l, m ≤ x)
+    (hmem : init = m ∨ m ∈ l) : l.foldl min init = m := by
+  induction l generalizing init with
+  | nil => rcases hmem with h | h; exact h; simp at h
+  | cons a l ih =>
+    simp only [List.foldl_cons]
+    have ha := hall a (by simp)
+    apply ih
+    · omega
+    · exact fun x hx => hall x (by simp [hx])
+    · rcases hmem with h | h
+      · left; omega
+      · rcases List.mem_cons.mp h with h | h
+        · left; omega
+        · right; exact h
+
+theorem findIdx_replicate (p : Int → Bool) (m : Nat) (x y : Int) (r : List Int) (hx : p x = false)
+    (hy : p y = true) : (List.replicate m x ++ y :: r).findIdx? p = some m := by
+  induction m with
+  | zero => simp [List.findIdx?_cons, hy]
+  | succ m ih => simp [List.replicate_succ, List.findIdx?_cons, hx, ih]
+
+/-- the threshold logic of `seek_timestamp_next_line` on a list of pixel starts whose distances are `m` short
+    ones, then a long one, then short and long ones with at least one short one -/
+theorem seek_threshold (iw : List Nat) (ps : List Nat) (hps : pixelStarts iw = ps) (m : Nat) (k d : Int)
+    (hd : 1 ≤ d) (R : List Int) (hds : diffsI ps = List.replicate m k ++ (k + d) :: R)
+    (hR : ∀ x ∈ R, x = k ∨ x = k + d) (hk : m ≠ 0 ∨ k ∈ R) :
+    seekNextLine iw = ps[m + 1]? := by
+  unfold seekNextLine
+  simp only [hps, hds]
+  have hne : (List.replicate m k ++ (k + d) :: R).isEmpty = false := by
+    cases m <;> simp [List.replicate_succ]
+  rw [hne]
+  simp only [Bool.false_eq_true, if_false]
+  have hall : ∀ x ∈ List.replicate m k ++ (k + d) :: R, k ≤ x ∧ x ≤ k + d := by
+    intro x hx
+    rcases List.mem_append.mp hx with h | h
+    · have := (List.mem_replicate.mp h).2; omega
+    · rcases List.mem_cons.mp h with h | h
+      · omega
+      · rcases hR x h with h | h <;> omega
+  have hhead : ∀ x, (List.replicate m k ++ (k + d) :: R).headD 0 = x → k ≤ x ∧ x ≤ k + d := by
+    intro x hx
+    apply hall
+    cases m with
+    | zero => simp at hx; simp [← hx]
+    | succ m => simp [List.replicate_succ] at hx; simp [← hx, List.replicate_succ]
+  have hmax : (List.replicate m k ++ (k + d) :: R).foldl max ((List.replicate m k ++ (k + d) :: R).headD 0) = k + d :=
+    foldl_max_eq _ _ _ (hhead _ rfl).2 (fun x hx => (hall x hx).2) (Or.inr (by simp))
+  have hmin : (List.replicate m k ++ (k + d) :: R).foldl min ((List.replicate m k ++ (k + d) :: R).headD 0) = k := by
+    apply foldl_min_eq _ _ _ (hhead _ rfl).1 (fun x hx => (hall x hx).1)
+    rcases hk with h | h
+    · left
+      obtain ⟨m', rfl⟩ : ∃ m', m = m' + 1 := ⟨m - 1, by omega⟩
+      simp [List.replicate_succ]
+    · right; simp [h]
+  rw [hmax, hmin]
+  rw [findIdx_replicate _ m k (k + d) R (by simp; omega) (by simp; omega)]
+  rfl
+
+theorem seek_regular (lead k d P n : Nat) (hk : 1 ≤ k) (hd : 1 ≤ d) :
+    seekNextLine (regWave lead k d (P + 2) (n + 2)) = some (lead + (P + 2) * k + d) := by
+  let s' := lead + (P + 2) * k + d
+  obtain ⟨r, hr⟩ := regStarts_head k d (P + 1) s' n
+  have hstarts : regStarts k d (P + 2) lead (n + 2)
+      = lead :: (lineStarts k (lead + k) (P + 1) ++ s' :: r) := by
+    rw [regStarts, hr]; rfl
+  have hps := pixelStarts_regular (regWave lead k d (P + 2) (n + 2)) k hk lead _
+    (by rw [usedIdx_regWave lead k d (P + 2) (n + 2) hk, hstarts])
+  have hmem := diffsI_reg_mem k d (P + 1) (n + 1) s'
+  rw [hr] at hmem
+  -- the second line begins with two pixel starts `k` apart
+  have hk_in : (k : Int) ∈ diffsI (s' :: r) := by
+    have : ∃ r', r = (s' + k) :: r' := by
+      have h2 : regStarts k d (P + 2) s' (n + 1) = s' :: (s' + k) :: (lineStarts k (s' + k + k) P ++
+          regStarts k d (P + 2) (s' + (P + 2) * k + d) n) := by
+        simp [regStarts, lineStarts]
+      rw [h2] at hr
+      exact ⟨_, (List.cons.inj hr).2.symm⟩
+    obtain ⟨r', rfl⟩ := this
+    simp only [diffsI, List.mem_cons]
+    left; omega
+  have hth := seek_threshold _ _ hps P (k : Int) (d : Int) (by omega) (diffsI (s' :: r))
+    (by
+      rw [diffsI_line_append]
+      congr 2
+      show ((s' : Nat) : Int) - _ = _
+      simp only [s', Nat.succ_mul]
+      omega)
+    hmem (Or.inr hk_in)
+  rw [hth, List.getElem?_append_right (by rw [lineStarts_length]; omega), lineStarts_length]
+  simp [s']
+
+theorem carry_zip_zeros (d : Nat) (D : List Int) (acc : Int) :
+    carry acc (D.zip (List.replicate d 0)) = acc := by
+  induction d generalizing D with
+  | zero => simp [carry]
+  | succ d ih =>
+    cases D with
+    | nil => simp [carry]
+    | cons x D => simp [List.replicate_succ, carry, ih]
+
+theorem carry_zip_clean (A1 : List Nat) (d : Nat) (D : List Int) (acc : Int)
+    (h : D.length = (A1 ++ 2 :: List.replicate d 0).length) :
+    carry acc (D.zip (A1 ++ 2 :: List.replicate d 0)) = 0 := by
+  induction A1 generalizing D acc with
+  | nil =>
+    cases D with
+    | nil => simp at h
+    | cons x D => simp [carry, carry_zip_zeros]
+  | cons c A1 ih =>
+    cases D with
+    | nil => simp at h
+    | cons x D =>
+      have h' : D.length = (A1 ++ 2 :: List.replicate d 0).length := by simpa using h
+      simp only [List.cons_append, List.zip_cons_cons, carry]
+      split
+      · exact ih D acc h'
+      · split
+        · exact ih D 0 h'
+        · exact ih D _ h'
+
+theorem regLine_ends (k m : Nat) : ∃ init, regLine k (m + 1) = init ++ [2] := by
+  induction m with
+  | zero => exact ⟨List.replicate (k - 1) 1, by simp [regLine, regPixel]⟩
+  | succ m ih =>
+    obtain ⟨init, hi⟩ := ih
+    exact ⟨regPixel k ++ init, by rw [regLine, hi, List.append_assoc]⟩
+
+theorem regLine_count (k m : Nat) : (regLine k m).count 2 = m := by
+  induction m with
+  | zero => rfl
+  | succ m ih =>
+    rw [regLine, List.count_append, ih]
+    unfold regPixel
+    rw [List.count_append, List.count_replicate]
+    simp
+    omega
+
+/-- the first line of a regular wave with its lead-in and the dead time behind it, and the rest -/
+theorem regWave_split (lead k d P n : Nat) :
+    regWave lead k d P (n + 1) =
+      (List.replicate lead 0 ++ regLine k P ++ List.replicate d 0) ++ regLines k d P n := by
+  simp [regWave, regLines, List.append_assoc]
+
+theorem pixels_after_first_line_aux (lead k d P n : Nat) (hk : 1 ≤ k) (data : List Int)
+    (h : data.length = (regWave lead k d (P + 1) (n + 1)).length) :
+    pixelsSpec (data.drop (lead + (P + 1) * k + d)) ((regWave lead k d (P + 1) (n + 1)).drop (lead + (P + 1) * k + d))
+      = (pixelsSpec data (regWave lead k d (P + 1) (n + 1))).drop (P + 1) := by
+  have hlenA : (List.replicate lead 0 ++ regLine k (P + 1) ++ List.replicate d 0).length = lead + (P + 1) * k + d := by
+    simp [regLine_length k hk]; omega
+  rw [regWave_split] at h ⊢
+  generalize hA : List.replicate lead 0 ++ regLine k (P + 1) ++ List.replicate d 0 = A at hlenA h
+  generalize regLines k d (P + 1) n = B at h
+  rw [← hlenA, List.drop_left' rfl]
+  unfold pixelsSpec
+  have hz : data.zip (A ++ B) = (data.take A.length).zip A ++ (data.drop A.length).zip B := by
+    conv => lhs; rw [← List.take_append_drop A.length data]
+    rw [List.zip_append]
+    simp at h ⊢; omega
+  rw [hz, spec_append]
+  have hDl : (data.take A.length).length = A.length := by simp at h ⊢; omega
+  have hcarry : carry 0 ((data.take A.length).zip A) = 0 := by
+    obtain ⟨init, hi⟩ := regLine_ends k P
+    have hA' : A = (List.replicate lead 0 ++ init) ++ 2 :: List.replicate d 0 := by
+      rw [← hA, hi]; simp [List.append_assoc]
+    rw [hA'] at hDl ⊢
+    exact carry_zip_clean _ d _ 0 hDl
+  have hcount : (pixelsSpecAux 0 ((data.take A.length).zip A)).length = P + 1 := by
+    rw [spec_length, List.map_snd_zip (by omega), ← hA]
+    simp [List.count_append, regLine_count, List.count_replicate]
+  rw [hcarry, ← hcount, List.drop_left' rfl]
+
+theorem not_late_of_rel_nonneg (n off : Nat) (s : Stream) (h : 0 ≤ s.lead + (off : Int)) :
+    startsLate n off s = false := by
+  unfold startsLate chanSlice
+  simp [h]
+
+theorem first_line_repair_lemma (Pp lead k d P n : Nat) (hk : 1 ≤ k) (hd : 1 ≤ d) (ss : Streams) (c : Nat)
+    (hlate : startsLate (regWave lead k d (P + 2) (n + 2)).length 0 (streamOf ss c) = true)
+    (hin : ∀ c', 0 ≤ (streamOf ss c').lead + ((lead + (P + 2) * k + d : Nat) : Int)) :
+    (queryColour (.kymo Pp) (regWave lead k d (P + 2) (n + 2)) (streamOf ss c) c ObjState.fresh).1
+      = ⟨lead + (P + 2) * k + d, 1, []⟩ ∧
+    Settled (.kymo Pp) (regWave lead k d (P + 2) (n + 2)) ss ⟨lead + (P + 2) * k + d, 1, []⟩ := by
+  constructor
+  · have hpa : photonAccess (.kymo Pp) (regWave lead k d (P + 2) (n + 2)) (streamOf ss c) ObjState.fresh
+        = .ok ⟨lead + (P + 2) * k + d, 1, []⟩ := by
+      unfold photonAccess
+      simp only [ObjState.fresh, hlate, if_true, isScan, List.drop_zero, Bool.false_eq_true, if_false]
+      rw [seek_regular lead k d P n hk hd]
+      simp
+    unfold queryColour
+    simp only [ObjState.fresh, lookupImage, List.find?_nil, Option.map_none]
+    simp only [ObjState.fresh] at hpa
+    rw [hpa]
+    simp only
+    split
+    · rfl
+    · simp
+  · refine ⟨?_, fun c' => not_late_of_rel_nonneg _ _ _ (hin c')⟩
+    intro c' im hl
+    simp [lookupImage] at hl
+
+theorem regLines_count_pos (k d P n : Nat) : (regLines k d (P + 1) (n + 1)).count 2 ≠ 0 := by
+  rw [regLines, List.count_append, regLine_count]
+  omega
+
+
 end Verif.C02
